@@ -1,22 +1,17 @@
 #!/bin/bash
-# tools/seed_matrix.sh [Cxx ...]: run every confirmed seeded change against the check of its property.
-# Writes seeded/RESULTS.tsv  (seed, property, exit code, first VIOLATION line)
+# tools/seed_matrix.sh [-j N] [Cxx ...]: run every confirmed seeded change against the quick check of its property
+# (each on its own scratch worktree, N at a time; /repo itself is not touched).
+# Writes seeded/RESULTS.tsv (seed, property, exit code, first VIOLATION line).
 cd /verif
-# works on a scratch worktree (so that /repo stays untouched while other checks run); removed at the end
-WT=${VERIF_SCRATCH:-/var/tmp}/wt-seed-$$
-git -C /repo worktree add -q --detach $WT HEAD
-trap 'git -C /repo worktree remove --force $WT' EXIT
-OUT=seeded/RESULTS.tsv
-: > $OUT.tmp
+J=4; if [ "$1" = "-j" ]; then J=$2; shift 2; fi
+: > seeded/RESULTS.tsv.tmp
+LIST=""
 for d in seeded/C*-*; do
   s=$(basename $d); p=${s%-*}
   if [ $# -gt 0 ]; then case " $* " in *" $p "*) ;; *) continue;; esac; fi
-  grep -q "\"property_id\": \"$p\"" MANIFEST.json || { echo -e "$s\t$p\tunclaimed\t" >> $OUT.tmp; continue; }
-  if ! git -C $WT apply --check /verif/$d/patch.diff 2>/dev/null; then echo -e "$s\t$p\tpatch-does-not-apply\t" >> $OUT.tmp; continue; fi
-  git -C $WT apply /verif/$d/patch.diff
-  VERIF_REPO=$WT ./check $p --tier quick > /tmp/seedrun_$s.out 2>&1; rc=$?
-  git -C $WT checkout -- .
-  v=$(grep -m1 VIOLATION /tmp/seedrun_$s.out | cut -c1-220)
-  echo -e "$s\t$p\t$rc\t$v" | tee -a $OUT.tmp
+  if ! grep -q "\"property_id\": \"$p\"" MANIFEST.json; then echo -e "$s\t$p\tunclaimed\t" >> seeded/RESULTS.tsv.tmp; continue; fi
+  LIST="$LIST $s"
 done
-mv $OUT.tmp $OUT
+echo $LIST | tr ' ' '\n' | grep . | xargs -P $J -I{} tools/seed_one.sh {} >> seeded/RESULTS.tsv.tmp
+sort seeded/RESULTS.tsv.tmp > seeded/RESULTS.tsv; rm -f seeded/RESULTS.tsv.tmp
+cut -c1-200 seeded/RESULTS.tsv
